@@ -45,6 +45,10 @@ partial def parseErr : List String → Option (Classify.Err × List String)
   | "wrap" :: a :: b :: rest => do
     let (e, rest') ← parseErr rest
     pure (.wrap (← parseHexStr a) (← parseHexStr b) e, rest')
+  | "wrap2" :: a :: b :: c :: rest => do
+    let (e1, rest1) ← parseErr rest
+    let (e2, rest2) ← parseErr rest1
+    pure (.wrap2 (← parseHexStr a) (← parseHexStr b) (← parseHexStr c) e1 e2, rest2)
   | "to0" :: a :: b :: rest => do pure (.timeout0 (← parseHexStr a) (← parseHexStr b), rest)
   | "to1" :: a :: b :: rest => do
     let (e, rest') ← parseErr rest
